@@ -127,3 +127,206 @@ def run_tables(rep, crate, cfg):
                   "one low-nibble and one high-nibble table exist", {"roles": sorted(roles)}, cfg)
     rep.analysed.setdefault("tables", []).extend(sorted({c["path"] for c in [t["exp"], t["log"], t["mul"]] + nib}))
     return roles
+
+
+# ---------------------------------------------------------------------------
+# R2: operator shape
+
+from .. import terms, loops
+from ..terms import V, match, fmt
+import itertools
+
+P = lambda i: ("param", i)
+
+
+def _norm(t):
+    """get_unchecked(&T, i) == T[i]; strip casts; canonical operator order"""
+    def f(x):
+        if x[0] == "deref" and x[1][0] == "call" and isinstance(x[1][1], str) and x[1][1].endswith("get_unchecked") \
+                and len(x[1][2]) == 2:
+            base = x[1][2][0]
+            while base[0] in ("ref", "deref", "deref*"):
+                base = base[1]
+            return ("index", base, x[1][2][1])
+        if x[0] == "index" and x[1][0] in ("ref",):
+            return ("index", x[1][1], x[2])
+        return x
+    return terms.normalise(terms.strip_casts(terms.simplify(terms.map_term(t, f))))
+
+
+def dnf_truth(dnf, atoms_env):
+    """evaluate a DNF (list of sets of (cond, truth)) under an assignment atom->bool; unknown atoms -> None"""
+    res = False
+    for conj in dnf:
+        ok = True
+        for c, v in conj:
+            if c not in atoms_env:
+                return None
+            if atoms_env[c] != v:
+                ok = False
+                break
+        if ok:
+            res = True
+    return res
+
+
+def canon_dnf(tb, blk):
+    dnf = terms.path_dnf(tb, blk) or []
+    out = []
+    for conj in dnf:
+        cc = set()
+        for c, v in conj:
+            c2, v2 = terms.canon_cond(_norm(c), v)
+            c2 = _norm(c2)
+            if any(s[0] == "overflow" for s in terms.subterms(c2)):
+                continue
+            if c2[0] == "op" and c2[1] == "Ne":
+                c2, v2 = terms.normalise(("op", "Eq", c2[2], c2[3])), not v2
+            cc.add((c2, v2))
+        out.append(frozenset(cc))
+    return out
+
+
+def run_operators(rep, crate, cfg):
+    R = "C10-R2"
+    t = find_tables(crate)
+    if "exp" not in t or "log" not in t:
+        return
+    EXP = ("item", t["exp"]["path"])
+    LOG = ("item", t["log"]["path"])
+    MUL = ("item", t["mul"]["path"]) if "mul" in t else None
+    octet = None
+    for p, a in crate.adts.items():
+        if a["kind"] == "Struct" and p.startswith("octet::") and len(a["variants"][0]["fields"]) == 1 and \
+                a["variants"][0]["fields"][0]["ty"]["s"] == "u8":
+            octet = p
+    rep.floor(R, 1 if octet else 0, 1, "field element struct {u8}", cfg)
+    if not octet:
+        return
+    AGG = "adt:" + octet
+
+    def val(p, byref):
+        return ("field", ("deref", p), 0) if byref else ("field", p, 0)
+
+    def product(a, b):
+        alts = [_norm(("index", EXP, ("op", "Add", ("index", LOG, a), ("index", LOG, b))))]
+        if MUL:
+            alts.append(_norm(("index", ("index", MUL, a), b)))
+            alts.append(_norm(("index", ("index", MUL, b), a)))
+        return alts
+    n_ops = 0
+    for k, f in sorted(crate.fns.items()):
+        tr = f.f.get("impl_trait")
+        st = f.f.get("impl_self", {})
+        self_s = st.get("s", "")
+        if f.f.get("impl_derived") or octet.split("::")[-1] not in self_s or not self_s.replace("&", "").strip().endswith(octet):
+            continue
+        byref = self_s.startswith("&")
+        tb = terms.TermBuilder(f)
+        where = f.loc()
+        name = k.split("::")[-1]
+        if tr in ("std::ops::Add", "std::ops::Sub", "core::ops::Add", "core::ops::Sub") or (tr or "").startswith(("std::ops::Add<", "std::ops::Sub<", "core::ops::Add<", "core::ops::Sub<")):
+            n_ops += 1
+            rt = _norm(tb.return_term())
+            want = ("agg", AGG, (_norm(("op", "BitXor", val(P(1), byref), val(P(2), byref))),))
+            rep.check(rt == want, R, k, "xor", where, "%s is bitwise xor of the two octets" % name, {"found": fmt(rt)[:160]}, cfg)
+        elif (tr or "").startswith(("std::ops::AddAssign", "core::ops::AddAssign")):
+            n_ops += 1
+            rhs_ref = f.f["inputs"][1].get("k") == "ref"
+            ls = loops.LoopSummary(f, lambda ct, t: "store" if ct[0] == "store" else None)
+            want = _norm(("op", "BitXor", val(P(1), True), val(P(2), rhs_ref)))
+            ok = len(ls.events) == 1 and _norm(ls.events[0]["args"][0]) == val(P(1), True) and _norm(ls.events[0]["args"][1]) == want \
+                and not canon_dnf(tb, ls.events[0]["block"])[0]
+            rep.check(ok, R, k, "xor-assign", where, "add_assign xors the operand into self unconditionally",
+                      {"events": loops.render(ls)[:200]}, cfg)
+        elif (tr or "").startswith(("std::ops::Mul", "core::ops::Mul", "std::ops::Div", "core::ops::Div")):
+            n_ops += 1
+            is_mul = "Mul" in tr
+            if not byref:
+                rt = tb.return_term()
+                ok = rt[0] == "call" and rt[2] == (("ref", P(1)), ("ref", P(2))) and isinstance(rt[1], str) and \
+                    rt[1] in crate.fns and crate.fns[rt[1]].f.get("impl_trait", "").startswith(tr.split("<")[0])
+                rep.check(ok, R, k, "by-value-delegates", where, "%s by value delegates to the by-reference operator" % name,
+                          {"found": fmt(rt)[:160]}, cfg)
+                continue
+            a, b = val(P(1), True), val(P(2), True)
+            A0 = terms.normalise(("op", "Eq", ("const", 0), a))
+            B0 = terms.normalise(("op", "Eq", ("const", 0), b))
+            # assignments to the return place
+            sites = []
+            for blk in f.blocks:
+                if blk["cleanup"] or blk["i"] not in f.cfg.reach:
+                    continue
+                for i, s in enumerate(blk["stmts"]):
+                    if s["s"] == "assign" and s["lhs"]["l"] == 0 and not s["lhs"]["proj"]:
+                        sites.append((blk["i"], _norm(tb.rvalue(blk["i"], i, s["rv"]))))
+            zero = ("agg", AGG, (("const", 0),))
+            if is_mul:
+                prods = [("agg", AGG, (p,)) for p in product(a, b)]
+                okshape = len(sites) == 2 and any(s[1] == zero for s in sites) and any(s[1] in prods for s in sites)
+                rep.check(okshape, R, k, "mul-shape", where, "a*b is 0 or OCT_EXP[OCT_LOG[a] + OCT_LOG[b]] (or the product table entry)",
+                          {"found": [fmt(s[1])[:160] for s in sites]}, cfg)
+                if okshape:
+                    for blk, tm in sites:
+                        dnf = canon_dnf(tb, blk)
+                        good = True
+                        for va, vb in itertools.product([False, True], repeat=2):
+                            got = dnf_truth(dnf, {A0: va, B0: vb})
+                            want = (va or vb) if tm == zero else (not va and not vb)
+                            if got is None or got != want:
+                                good = False
+                        rep.check(good, R, k, "mul-guard-" + ("zero" if tm == zero else "product"), where,
+                                  "the zero result is returned exactly when a == 0 or b == 0, the table product otherwise",
+                                  {"dnf": [[(fmt(c), v) for c, v in cj] for cj in dnf]}, cfg)
+            else:
+                q = ("agg", AGG, (_norm(("index", EXP, ("op", "Sub", ("op", "Add", ("const", 255), ("index", LOG, a)), ("index", LOG, b)))),))
+                rt = _norm(tb.return_term())
+                want = ("ite", A0, zero, q)
+                rep.check(rt == want, R, k, "div-shape", where, "a/b is 0 if a == 0 else OCT_EXP[255 + OCT_LOG[a] - OCT_LOG[b]]",
+                          {"found": fmt(rt)[:200]}, cfg)
+                # refusal: division by zero panics
+                exits = f.cfg.exits()
+                dnf = canon_dnf(tb, exits[0]) if exits else []
+                guarded = bool(dnf) and all((B0, False) in cj for cj in dnf)
+                rep.check(guarded, R, k, "div-nonzero-guard", where, "division returns only under b != 0 (asserted)", None, cfg)
+    rep.floor(R, n_ops, 9, "operator impls on the field element (Add x2, AddAssign x2, Sub, Mul x2, Div x2)", cfg)
+    # inherent functions
+    fns = {k.split("::")[-1]: f for k, f in crate.fns.items() if f.f.get("impl_self", {}).get("adt") == octet and not f.f.get("impl_trait")}
+    simple = {"new": ("agg", AGG, (P(1),)), "zero": ("agg", AGG, (("const", 0),)), "one": ("agg", AGG, (("const", 1),)),
+              "byte": ("field", ("deref", P(1)), 0)}
+    for nm, want in simple.items():
+        f = fns.get(nm)
+        if f is None:
+            continue
+        rt = _norm(terms.TermBuilder(f).return_term())
+        rep.check(rt == want, R, f.key, "identity-" + nm, f.loc(), "Octet::%s is the identity embedding / constant" % nm, {"found": fmt(rt)[:100]}, cfg)
+    f = fns.get("alpha")
+    if f is not None:
+        tb = terms.TermBuilder(f)
+        rt = _norm(tb.return_term())
+        exits = f.cfg.exits()
+        conds = [terms.canon_cond(_norm(c), v) for c, v in tb.path_conditions(exits[0])] if exits else []
+        guard = (terms.normalise(("op", "Lt", P(1), ("const", 256))), True) in conds
+        rep.check(rt == ("agg", AGG, (("index", EXP, P(1)),)) and guard, R, f.key, "alpha", f.loc(),
+                  "alpha(i) = OCT_EXP[i] under i < 256", {"found": fmt(rt)[:100], "conds": [(fmt(c), v) for c, v in conds]}, cfg)
+    f = fns.get("fma")
+    rep.floor(R, sum(1 for n in ("new", "zero", "one", "byte", "alpha", "fma") if n in fns), 6, "inherent functions of the field element", cfg)
+    if f is not None:
+        tb = terms.TermBuilder(f)
+        ls = loops.LoopSummary(f, lambda ct, t: "store" if ct[0] == "store" else None)
+        b, c_ = val(P(2), True), val(P(3), True)
+        me = val(P(1), True)
+        wants = [_norm(("op", "BitXor", me, p)) for p in product(b, c_)]
+        ok = len(ls.events) == 1 and _norm(ls.events[0]["args"][0]) == me and _norm(ls.events[0]["args"][1]) in wants
+        rep.check(ok, R, f.key, "fma-shape", f.loc(), "fma: self ^= OCT_EXP[OCT_LOG[b] + OCT_LOG[c]]", {"events": loops.render(ls)[:240]}, cfg)
+        if ok:
+            dnf = canon_dnf(tb, ls.events[0]["block"])
+            B0 = terms.normalise(("op", "Eq", ("const", 0), b))
+            C0 = terms.normalise(("op", "Eq", ("const", 0), c_))
+            good = True
+            for vb, vc in itertools.product([False, True], repeat=2):
+                got = dnf_truth(dnf, {B0: vb, C0: vc})
+                if got is None or got != (not vb and not vc):
+                    good = False
+            rep.check(good, R, f.key, "fma-guard", f.loc(), "fma adds the product exactly when both factors are non-zero (else adds 0)",
+                      {"dnf": [[(fmt(c), v) for c, v in cj] for cj in dnf]}, cfg)
